@@ -64,6 +64,7 @@ def cases(ctx):
                     out.append({"id": "%s|%s|part%d" % (cfg, op, part), "cfg": cfg, "op": op, "shape": "un", "part": part, "weight": 60})
                 continue
             out.append({"id": "%s|%s" % (cfg, op), "cfg": cfg, "op": op, "shape": "un", "weight": 10})
+    out += rounding_kernel_obligations(ctx)
     return out
 
 
@@ -174,6 +175,8 @@ def run_float_spec(ctx, case):
 
 
 def run_case(ctx, case):
+    if case.get("delegate"):
+        return run_delegated(ctx, case)
     cfgB, op, shape = case["cfg"], case["op"], case["shape"]
     if op == "from_f64":
         return run_float_spec(ctx, case)
@@ -340,6 +343,8 @@ def native_line(info, inputs):
 
 
 def replay(ctx, native, v):
+    if v.get("info", {}).get("delegate"):
+        return replay_delegated(ctx, native, v)
     if v["info"].get("via") == "C16":
         from . import C16
         r1 = C16.replay(ctx, {"dev": native["dev"]}, v)
